@@ -1,6 +1,7 @@
 package main
 
 import (
+	"fmt"
 	"time"
 	"unicode/utf8"
 
@@ -199,7 +200,7 @@ func genC12LimitWindow(seed uint64, r *rng) *Scenario {
 // pattern whose backtracking depth grows with it), surrounded by ordinary calls on the same Regexp: whatever a
 // runner does with very large stacks when it is recycled must not show in later calls.
 func genC12DeepStack(seed uint64, r *rng) *Scenario {
-	const deepCap = 4_000_000
+	const deepCap = 12_000_000
 	sc := &Scenario{Prop: "C12", Seed: seed, SchedSeed: mix64(seed, 12), OpStepCap: deepCap, Mode: "deep-stack", PeriodNs: int64(time.Millisecond)}
 	cfg := vsim.Config{Policy: vsim.Fair, Quantum: 100 + r.i64(900), MaxSteps: 2_000_000_000, PoolMode: []int{vsim.PoolLIFO, vsim.PoolRandom, vsim.PoolLIFO}[r.n(3)], MissProb: uint32(r.n(100))}
 	frags := []string{"a", "b", "ab", "ba", "abc", "a,", "ab "}
@@ -214,16 +215,21 @@ func genC12DeepStack(seed uint64, r *rng) *Scenario {
 	}
 	var deep Op
 	found := false
-	want := 32768 << uint(r.n(3))
-	for rep := 1500 + r.n(1500); rep <= 48000 && !found; rep *= 2 {
+	// The input length is drawn, not derived from the measured stack size: an edited tree may well change what
+	// the stack-capacity observer reports (that is the kind of change this history is after).  With 2-13 slots
+	// per iteration, 4k-130k iterations put the stack below, at and (for unlimited Regexps) beyond the default
+	// limit of 100000 slots.  The longest input that fits the step cap is used.
+	for rep := []int{2000, 4000, 8000, 16000, 32000, 64000, 128000}[r.n(7)] + r.n(500); rep >= 1000 && !found; rep /= 2 {
 		probe := Op{Kind: OpFindString, In: InputSpec{Unit: sh[1], Rep: rep, Suf: sh[2]}, N: -1, TimeoutNs: -1}
 		ref := c13Reference(s, &probe, deepCap)
-		if ref.err != "" || ref.capped {
+		if ref.err != "" {
 			break
 		}
-		if ref.peak >= want || rep*2 > 48000 && ref.peak >= 32768 {
-			deep, found = probe, true
+		if ref.capped {
+			continue
 		}
+		deep, found = probe, true
+		sc.Note = fmt.Sprintf("deep call: %d iterations, %d steps, backtracking stack of %d slots with the limit disabled (as reported by this tree)", rep, ref.steps, ref.peak)
 	}
 	if !found {
 		return sc
@@ -240,14 +246,20 @@ func genC12DeepStack(seed uint64, r *rng) *Scenario {
 		}
 	}
 	addSmall(r.n(3))
+	rDeep := 0
 	for k := 1 + r.n(2); k > 0; k-- {
 		d := deep
-		d.Kind = []int{OpFindString, OpMatchString, OpFindAllString, OpReplace, OpMatchRunes, OpSplit}[r.n(6)]
+		// (bool-only entry points run the capture-free program, whose stack may stay much smaller)
+		d.Kind = []int{OpFindString, OpFindString, OpFindRunes, OpMatchString, OpFindAllString, OpReplace, OpSplit, OpReplaceFunc}[r.n(8)]
 		d.Repl = repls[r.n(len(repls))]
 		if v := pristine(s, &d, deepCap); !v.capped {
+			rDeep++
 			cl.Ops = append(cl.Ops, d)
 		}
 		addSmall(1 + r.n(4))
+	}
+	if rDeep == 0 {
+		return sc // no call of this history grows the stacks: nothing to learn
 	}
 	sc.Clients = []Client{cl}
 	cfg.Alphabet = alphabetOf(sc)
